@@ -123,10 +123,18 @@ def run_units(units: List[Unit], jobs: Optional[int] = None, progress: bool = Tr
 
 
 def load_findings() -> dict:
+    """known_findings.json plus the per-property files contracts/notes/<ID>_known.json (all committed, never
+    written at run time)"""
+    import glob
+
     p = os.path.join(VERIF, "known_findings.json")
-    if not os.path.exists(p):
-        return {"known": [], "fixed": []}
-    return json.load(open(p))
+    out = json.load(open(p)) if os.path.exists(p) else {"known": [], "fixed": []}
+    for f in sorted(glob.glob(os.path.join(VERIF, "contracts", "notes", "*_known.json"))):
+        try:
+            out["known"] += json.load(open(f))
+        except Exception as e:  # a malformed file must not silently suppress anything
+            print(f"warning: cannot read {f}: {e!r}", file=sys.stderr)
+    return out
 
 
 def match_finding(findings: dict, pid: str, obname: str, failures=None) -> Optional[dict]:
